@@ -1171,6 +1171,8 @@ func (ev *Evaluator) call(c *grl.Call) (Val, error) {
 				}
 				return BoolV(true), nil
 			}
+		case "Boom":
+			return Val{}, evalErr("F.Boom() panics")
 		case "Cat":
 			var sb strings.Builder
 			for _, a := range args {
